@@ -6,6 +6,7 @@ package main
 import (
 	"fmt"
 	"go/types"
+	"sync/atomic"
 )
 
 const (
@@ -31,6 +32,10 @@ type schan struct {
 	cap    int
 	buf    []value
 	closed bool
+	// environment-fed timer channel: a tick may be delivered whenever a receiver asks, up to ticksLeft
+	ticker    bool
+	ticksLeft int
+	stopped   bool
 }
 
 type chanCase struct {
@@ -215,6 +220,18 @@ func (p *pathCtx) reschedule() {
 }
 
 func (p *pathCtx) deadlockOutcome(stuck []string) {
+	// a goroutine waiting for a tick beyond the tick bound is a truncated exploration, not a hang
+	for _, t := range p.threads {
+		if t.state == tBlocked && t.pend != nil {
+			for _, c := range t.pend.cases {
+				if c.ch != nil && c.ch.ticker && !c.ch.stopped && c.ch.ticksLeft <= 0 {
+					atomic.AddInt64(&p.ex.truncated, 1)
+					p.finish(pathAbort{"stop", "tick bound reached"})
+					return
+				}
+			}
+		}
+	}
 	site := "nodeadlock"
 	st := p.ex.site(site)
 	st.Evaluated++
@@ -281,6 +298,9 @@ func (p *pathCtx) caseReady(c chanCase) bool {
 	if len(c.ch.buf) > 0 || c.ch.closed {
 		return true
 	}
+	if c.ch.ticker {
+		return !c.ch.stopped && c.ch.ticksLeft > 0
+	}
 	t, _ := p.partner(c.ch, true)
 	return t != nil
 }
@@ -315,6 +335,10 @@ func (p *pathCtx) perform(c chanCase) (value, bool) {
 		}
 		ch.buf = append(ch.buf, c.val)
 		return nil, false
+	}
+	if ch.ticker && len(ch.buf) == 0 && !ch.closed {
+		ch.ticksLeft--
+		return p.timeNow(), true
 	}
 	if len(ch.buf) > 0 {
 		v := ch.buf[0]
